@@ -936,7 +936,7 @@ PROPS = {
     },
     "C08": {
         "property_modules": ["Zlink.Properties.C08"], "lean_modules": ["Zlink.Properties.C08"],
-        "theorems": ["C08.C08_refinement", "C08.C08_quiescent", "C08.C08_model_satisfies_oracle", "C08.C08_no_lost_wakeup", "C08.C08_wake_driven", "C08.C08_parked_all_answered", "C08.C08_poll_splits", "C08.C08_oneway_silent", "C08.C08_one_reply", "C08.C08_in_order"],
+        "theorems": ["C08.C08_refinement", "C08.C08_quiescent", "C08.C08_model_satisfies_oracle", "C08.C08_no_lost_wakeup", "C08.C08_wake_driven", "C08.C08_parked_all_answered", "C08.C08_poll_splits", "C08.C08_parked_server_polled_everybody", "C08.C08_oneway_silent", "C08.C08_one_reply", "C08.C08_in_order"],
         "run": run_srv_scenarios(["srv"]), "trusted_base": TB_COMMON, "assumptions": SRV_ASSUME,
     },
     "C09": {
@@ -947,7 +947,7 @@ PROPS = {
     },
     "C10": {
         "property_modules": ["Zlink.Properties.C10"], "lean_modules": ["Zlink.Properties.C10"],
-        "theorems": ["C10.C10_stream_order", "C10.C10_items", "C10.C10_resume", "C10.C10_others_served", "C10.C10_ready_call_goes_first",
+        "theorems": ["C10.C10_stream_order", "C10.C10_items", "C10.C10_resume", "C10.C10_others_served", "C10.C10_ready_call_goes_first", "C10.C10_mid_poll_arrivals_are_events",
                      "C10.C10_open_stream_blocks_nobody", "C10.C10_results_accounted", "C10.C10_pending_stream_untouched", "C10.C10_stream_rotation",
                      "C10.C10_unwritable_drops_only_subscription"],
         "run": run_srv_scenarios(["srv-stream"]), "trusted_base": TB_COMMON,
@@ -955,7 +955,7 @@ PROPS = {
     },
     "C18": {
         "property_modules": ["Zlink.Properties.C18"], "lean_modules": ["Zlink.Properties.C18"],
-        "theorems": ["C18.C18_select_min", "C18.C18_scan_is_select", "C18.C18_server_rotation", "C18.C18_no_double_service", "C18.C18_phase_bound", "C18.C18_bounded_bypass",
+        "theorems": ["C18.C18_pending_polled_everybody", "C18.C18_select_min", "C18.C18_scan_is_select", "C18.C18_server_rotation", "C18.C18_no_double_service", "C18.C18_phase_bound", "C18.C18_bounded_bypass",
                      "C18.C18_run_is_winners", "C18.C18_server_no_double_service", "C18.C18_server_phase_bound", "C18.C18_positions_are_connections", "C18.C18_waiting_call_not_overtaken"],
         "run": run_srv_scenarios(["srv-fair"]), "trusted_base": TB_COMMON,
         "assumptions": SRV_ASSUME + [
@@ -1055,7 +1055,7 @@ PROPS = {
     "C20": {
         "property_modules": ["Zlink.Properties.C20"], "lean_modules": ["Zlink.Properties.C20"],
         "theorems": ["C20.C20_runtimes_agree", "C20.C20_poll", "C20.C20_never_ends", "C20.C20_converges", "C20.C20_cursor_monotone",
-                     "C20.C20_subscribe_sees_later_only", "C20.C20_after_close", "C20.C20_once"],
+                     "C20.C20_subscribe_sees_later_only", "C20.C20_after_close", "C20.C20_order", "C20.C20_once"],
         "run": run_notified, "package": "zvrt", "trusted_base": TB_COMMON,
         "assumptions": [
             "tokio::sync::broadcast + tokio_stream::BroadcastStream and async-broadcast (overflow mode), both with capacity 1, and the one-shot channels are MODELLED (counter + retained value + cursor), validated by running both real crates on every explored history; only the adapters on top are zlink's",
@@ -1095,7 +1095,7 @@ PROPS = {
     "C05": {
         "property_modules": ["Zlink.Properties.C05"], "lean_modules": ["Zlink.Properties.C05"],
         "theorems": ["C05.C05_flag_names", "C05.C05_flags_only_when_set", "C05.C05_flags_hidden", "C05.C05_call_roundtrip", "C05.C05_error_encoding",
-                     "C05.C05_error_roundtrip", "C05.C05_error_member_order", "C05.C05_reply_encoding", "C05.C05_no_parameters_spellings", "C05.C05_wellformed_call_accepted"],
+                     "C05.C05_error_roundtrip", "C05.C05_error_member_order", "C05.C05_reply_encoding", "C05.C05_no_parameters_spellings", "C05.C05_wellformed_call_accepted", "C05.C05_open_method_sees_everything_else"],
         "run": run_envelope, "trusted_base": TB_COMMON,
         "assumptions": [
             "serde / serde_derive semantics modelled for the shape family (see C04); field values are strings without escapes, integers, booleans, options, arbitrary JSON",
@@ -1106,7 +1106,7 @@ PROPS = {
     "C06": {
         "property_modules": ["Zlink.Properties.C06"],
         "lean_modules": ["Zlink.Properties.C06"],
-        "theorems": ["C06.C06_owed", "C06.C06_all_oneway", "C06.C06_stops_on_transport_error", "C06.C06_one_write", "C06.C06_oracle"],
+        "theorems": ["C06.C06_owed", "C06.C06_all_oneway", "C06.C06_stops_on_transport_error", "C06.C06_one_write", "C06.C06_oracle", "C06.C06_parked_stream_poll_is_noop"],
         "run": run_chain, "trusted_base": TB_COMMON,
         "assumptions": RX_ASSUME[1:] + [
             "what receive_reply makes of a frame (continuing reply / final reply / method error / general error) is a parameter `kind` of the stream model; the harness derives it from the frame's JSON and the reference receive",
@@ -1116,7 +1116,7 @@ PROPS = {
     "C07": {
         "property_modules": ["Zlink.Properties.C07"],
         "lean_modules": ["Zlink.Properties.C07"],
-        "theorems": ["C07.C07_safe", "C07.C07_complete", "C07.C07_oracle", "C07.C07_state_only_in_connection", "C07.C07_parked_poll_is_noop"],
+        "theorems": ["C07.C07_safe", "C07.C07_complete", "C07.C07_oracle", "C07.C07_state_only_in_connection", "C07.C07_parked_poll_is_noop", "C07.C07_wake_driven"],
         "run": run_c07, "search": search_rx,
         "trusted_base": TB_COMMON, "assumptions": RX_ASSUME + [
             "the property's second anchor - Server::run re-creates (abandons) every connection's receive future whenever its select completes - is exercised by also running the `srv` scenario under this check: a call that the server loses between two iterations of its loop is a lost message in the sense of C07",
